@@ -86,6 +86,7 @@ SemApply0(p, e) ==
          LET cl == [ReleaseRejectedOnlyAtMax |-> p.maxv >= 0 /\ p.avail >= p.maxv]
          IN [p |-> p, bad |-> PNames(cl) \cup PNames(SemObs(p, e))]
     [] e.ev = "creq" -> [p |-> [p EXCEPT !.creq = @ \cup {e.t}], bad |-> {}]
+    [] e.ev = "cdone" -> [p |-> [p EXCEPT !.creq = @ \ {e.t}], bad |-> {}]   \* t's scope absorbed the request; t carries on
     [] e.ev = "quiescent" ->
          LET cl == [NoFreePermitWithWaiters |-> p.inprog # <<>> => p.avail = 0,
                     ValueTrueWhenIdle |-> p.inprog = <<>> => (e.value = p.avail /\ e.waiting = 0)]
